@@ -221,10 +221,17 @@ def msk_item_all(sf, it):
 
 
 def clause_tags(text, default):
-    m = re.search(r'//\s*\[([A-Z0-9 ,]+)\]\s*$', text)
+    """`// [C03 C16 #label]` at the end of a clause line: property tags and an optional stable label."""
+    m = re.search(r'//\s*\[([A-Z0-9 ,]*)(#[\w-]+)?\]\s*$', text)
     if m:
-        return re.split(r'[ ,]+', m.group(1).strip())
+        tags = [t for t in re.split(r'[ ,]+', m.group(1).strip()) if t]
+        return tags or default
     return default
+
+
+def clause_label(text):
+    m = re.search(r'//\s*\[[A-Z0-9 ,]*#([\w-]+)\]\s*$', text)
+    return m.group(1) if m else None
 
 
 def splice_item(asm, spec, probe=False):
